@@ -136,7 +136,7 @@ def solve(recs):
 
 
 def table(repo, build_dir, variant="fast"):
-    recs, stats = cast.facts(repo, build_dir, "asan")
+    recs, stats = cast.facts(repo, build_dir, variant)
     by_src = {r["src"]: r for r in recs}
     nm = nm_objects(build_dir, variant, list(by_src))
     pts, wr = solve(recs)
